@@ -105,6 +105,33 @@ class PosixModel(object):
         return True
 
 
+class FirstOnsetModel(PosixModel):
+    """a VTIMEZONE whose components start in `first_year`: from the first onset on the yearly rules apply, before it the first
+    STANDARD component (the property's wording) - also inside the hours just before the first onset"""
+    def __init__(self, pz, years, first_year):
+        PosixModel.__init__(self, pz, years)
+        self.first = min(pz.transitions(first_year))            # naive UTC datetime of the first onset
+        self.first_ts = to_ts(self.first)
+
+    def at(self, ts):
+        if ts < self.first_ts:
+            return (self.pz.stdoff, self.pz.std, False)
+        return self.pz.at(to_dt(ts))
+
+    raw_at = at
+
+    def preimages(self, wall):
+        out = set()
+        for off in {self.pz.stdoff, self.pz.dstoff}:
+            u = wall - off
+            if self.at(u)[0] == off:
+                out.add(u)
+        return sorted(out)
+
+    def transitions(self):
+        return sorted(set(PosixModel.transitions(self) + [self.first_ts]))
+
+
 class NamelessModel(PosixModel):
     """the same rules, but one observance has no abbreviation (its VTIMEZONE component carries no TZNAME)"""
     def __init__(self, pz, years, nameless):
@@ -194,8 +221,9 @@ def iter_zones(ctx, tz, relativedelta, rng, tier, with_real=True, n_posix=None, 
             yield 'tzrange(%s)' % s, 'tzrange', tzzoo.tzrange_equivalent(tz, relativedelta, pz), model, nothing
         if want('tzical') and pz.start[0] == 'M' and pz.end[0] == 'M':
             try:
-                z = vtimezone_zone(tz, pz, first_year=2000, order=rng.choice(['SD', 'DS']), fold_at=rng.choice([None, None, 30, 60]))
-                yield 'tzical(%s)' % s, 'tzical', z, model, nothing
+                order = rng.choice(['SD', 'DS'])
+                z = vtimezone_zone(tz, pz, first_year=2000, order=order, fold_at=rng.choice([None, None, 30, 60]))
+                yield 'tzical(%s)[%s]' % (s, order), 'tzical', z, FirstOnsetModel(pz, years, 2000), nothing
             except Exception as e:
                 ctx.violation('tzical-rejected', {'zone': s}, '%s: %s' % (type(e).__name__, e))
         if want('tzlocal'):
